@@ -43,7 +43,7 @@ Ob(kind, name, idx, vals, sk) == <<kind, name, idx, vals, sk>>
 St0(inp, dev) ==
   [pc |-> 1, env |-> EmptyF, arr |-> EmptyF, fs |-> <<>>, fl |-> EmptyF, gs |-> <<>>, dp |-> 1,
    inp |-> inp, dev |-> dev, oct |-> 0, obs |-> <<>>, calls |-> <<>>, status |-> "run", why |-> "",
-   onerr |-> -1, onbrk |-> -1, steps |-> 0, rdundef |-> ""]
+   onerr |-> -1, onbrk |-> -1, steps |-> 0, rdundef |-> "", epc |-> 0]
 Stop(st, status, why) == [st EXCEPT !.status = status, !.why = why]
 
 (* ---------------------------- text <-> numbers ---------------------------- *)
@@ -52,6 +52,9 @@ Stop(st, status, why) == [st EXCEPT !.status = status, !.why = why]
 DecDigits(s) == \A k \in 1..Len(s) : IsDigit(s[k])
 RECURSIVE DigitsVal(_, _)
 DigitsVal(s, acc) == IF s = <<>> THEN acc ELSE IF acc > 2000 THEN 999999 ELSE DigitsVal(Tail(s), acc * 10 + (s[1] - 48))
+IsHexDigit(c) == IsDigit(c) \/ (c >= 65 /\ c <= 70)
+RECURSIVE HexVal(_, _)
+HexVal(s, acc) == IF s = <<>> THEN acc ELSE HexVal(Tail(s), acc * 16 + (IF IsDigit(s[1]) THEN s[1] - 48 ELSE s[1] - 55))
 TrimL(s) == LET c == { k \in 1..Len(s) : s[k] # 32 } IN IF c = {} THEN <<>> ELSE SubSeq(s, CHOOSE k \in c : \A j \in c : k <= j, Len(s))
 TrimR(s) == LET c == { k \in 1..Len(s) : s[k] # 32 } IN IF c = {} THEN <<>> ELSE SubSeq(s, 1, CHOOSE k \in c : \A j \in c : k >= j)
 TextVal(s0) ==
@@ -62,6 +65,7 @@ TextVal(s0) ==
       ip == IF dots = {} THEN body ELSE SubSeq(body, 1, (CHOOSE k \in dots : TRUE) - 1)
       fp == IF dots = {} THEN <<>> ELSE SubSeq(body, (CHOOSE k \in dots : TRUE) + 1, Len(body)) IN
   IF s = <<>> THEN Zero
+  ELSE IF Len(s) >= 3 /\ s[1] = 38 /\ s[2] = 72 /\ Len(s) <= 6 /\ \A k \in 3..Len(s) : IsHexDigit(s[k]) THEN Q(HexVal(SubSeq(s, 3, Len(s)), 0), 1)
   ELSE IF Cardinality(dots) > 1 \/ ~DecDigits(ip) \/ ~DecDigits(fp) \/ (ip = <<>> /\ fp = <<>>) THEN
        (IF body # <<>> /\ ~IsDigit(body[1]) /\ body[1] # 46 THEN (IF body[1] = 38 THEN Sym ELSE Zero) ELSE Sym)
   ELSE IF Len(ip) > 4 \/ Len(fp) > 3 THEN Sym
@@ -458,10 +462,7 @@ DataItems(code) == FoldLeft(LAMBDA acc, ins : IF ins.op = "DATA" THEN acc \o ins
 
 Goto(prog, st, line) == IF line \in DOMAIN prog.lab THEN [st EXCEPT !.pc = prog.lab[line]] ELSE Stop(st, "error", "undefined-line")
 
-Step(prog, lang, st0) ==
-  IF st0.status # "run" THEN st0
-  ELSE IF st0.pc > Len(prog.code) THEN [st0 EXCEPT !.status = "halt", !.obs = Append(@, Ob("halt", "", <<>>, <<>>, "end-of-text"))]
-  ELSE
+Step1(prog, lang, st0) ==
   LET st == [st0 EXCEPT !.steps = @ + 1]
       ins == prog.code[st.pc]
       nxt == [st EXCEPT !.pc = @ + 1]
@@ -640,6 +641,12 @@ Step(prog, lang, st0) ==
     [] ins.op = "IO" -> Stop(st, "unjudged", "io-statement")
     [] ins.op = "BAD" -> Stop(st, "error", "parse:" \o ins.x)
     [] OTHER -> Stop(st, "error", "unknown-instruction:" \o ins.op)
+
+\* one step; a state that stops remembers the instruction it stopped at (epc)
+Step(prog, lang, st0) ==
+  IF st0.status # "run" THEN st0
+  ELSE IF st0.pc > Len(prog.code) THEN [st0 EXCEPT !.status = "halt", !.obs = Append(@, Ob("halt", "", <<>>, <<>>, "end-of-text"))]
+  ELSE LET r == Step1(prog, lang, st0) IN IF r.status = "run" THEN r ELSE [r EXCEPT !.epc = st0.pc]
 
 \* BASIC09 declarations take effect before the first statement runs
 Load(code, st) ==
